@@ -107,7 +107,8 @@ func c19Decode(c *Ctx, i int, lit string, r *gen.Rng) {
 			return
 		}
 		if err == nil && math.Float64bits(got) != math.Float64bits(f64) {
-			if lit == "-0" && got == 0 {
+			if lit == "-0" && got == 0 && !strings.HasPrefix(api, "ast.Node") {
+				// (the ast accessors convert with strconv and keep the sign: no waiver there)
 				c.Known("B24", i, api, "literal -0 decodes to +0", lit)
 				return
 			}
